@@ -366,6 +366,7 @@ def check(run, replay):
         cases = c01.load_corpus("C03")
         cases += c01.gen_pairs(run.rng, run.tier, 230 if run.tier == "quick" else 1300, [True])
         cases += c01.gen_self_pairs(run.rng, True, per_family=2 if run.tier == "quick" else 8)
+        cases += c01.xcheck_cases(run.rng, True, 3 if run.tier == "quick" else 8)
         if run.tier == "thorough":
             cases += c01.exhaustive_pairs(True)
         seeds = 20 if run.tier == "quick" else 100
